@@ -182,13 +182,20 @@ def check_region(name, tmpl, soup_text):
 def search(ctx, boost=False):
     s = Search()
     s.rule = ("every skippable region (%d region templates) x strict-nested token soups rendered with random "
-              "separators; non-trivial = soup with >=1 token; distinct = distinct (region, soup text)" % len(REGIONS))
+              "separators (in the blindly skipped regions also subscripts glued to '[[' / ']]'); non-trivial = soup with >=1 token; distinct = distinct (region, soup text)" % len(REGIONS))
     n = ctx.scale(1500, 40000) * (4 if boost else 1)
     rng = ctx.rng
     for i in range(n):
-        name, tmpl, _ = REGIONS[i % len(REGIONS)]
-        toks = soups.gen_soup(rng, rng.choice([2, 6, 15, 40]))
-        text = soups.render(rng, toks)
+        name, tmpl, kind = REGIONS[i % len(REGIONS)]
+        if kind != "all" and rng.random() < 0.35:
+            # regions skipped by _discard_contents count one bracket kind only: subscripts of subscripts written
+            # without blanks (']]' is one token for the lexer) are bracket-balanced text and must be skipped too
+            toks = soups.gen_soup(rng, rng.choice([6, 15, 40]), kinds=[("(", ")"), ("[", "]"), ("{", "}"), ("[", "]")])
+            text = soups.render_glued(rng, toks)
+            s.count("glued-brackets")
+        else:
+            toks = soups.gen_soup(rng, rng.choice([2, 6, 15, 40]))
+            text = soups.render(rng, toks)
         s.evaluations += 1
         if toks:
             s.nontrivial.add((name, text))
